@@ -175,10 +175,10 @@ func auditQueries(spec TableSpec, st *tState) []Query {
 	}
 	if spec.has(idxULPM) {
 		for _, k := range auditKeys {
-			for _, l := range []int{0, 8, 12, 16, 24} {
+			for _, l := range []int{0, 8, 12, 16, 24, 32} {
 				q := Query{Idx: idxULPM, Key: k, Len: l}
 				stored := st != nil && st.lpmStored(q)
-				if l == 24 || stored {
+				if l == 8*ulpmBytes || stored {
 					q.Kind = qGet
 					qs = append(qs, q)
 					q.Kind = qList
